@@ -226,7 +226,8 @@ func (w *fakeWorld) builder(ver int) submission.LogClientBuilder {
 func rootsAnswer(l LogSpec) bool { return l.Roots >= 0 && l.RootsMs < 10000 }
 
 func hasClient(l LogSpec) bool {
-	return l.State == stUsable || l.State == stPending || l.State == stQualified
+	st := effState(l)
+	return st == stUsable || st == stPending || st == stQualified
 }
 
 // --- generator --------------------------------------------------------------------------------
@@ -244,6 +245,35 @@ var ivShapes = [][3]int64{
 	{86400, 400 * 86400, 0},
 }
 
+// stanzaClasses labels lists with two-stanza entries for the evidence histogram.
+func stanzaClasses(ls ListSpec) []string {
+	var out []string
+	two, decides := false, false
+	for _, l := range ls.Logs {
+		if l.Extra > 0 && l.Extra-1 != l.State {
+			two = true
+			if effState(l) != l.State {
+				decides = true
+			}
+		}
+	}
+	if two {
+		out = append(out, "list:two-stanza-entry")
+	}
+	if decides {
+		out = append(out, "list:second-stanza-takes-precedence")
+	}
+	return out
+}
+
+// genExtraStanza: one entry in eight carries a second state stanza.
+func genExtraStanza(t *rapid.T) int {
+	if rapid.SampledFrom([]int{0, 0, 0, 0, 0, 0, 0, 1}).Draw(t, "twostanzas") == 0 {
+		return 0
+	}
+	return 1 + rapid.SampledFrom([]int{stUsable, stUsable, stPending, stQualified, stQualified, stReadOnly, stRetired, stRejected}).Draw(t, "extrastate")
+}
+
 func genDistList(t *rapid.T, total, root int) ListSpec {
 	ls := genListShape(t, total)
 	for i := range ls.Logs {
@@ -253,6 +283,7 @@ func genDistList(t *rapid.T, total, root int) ListSpec {
 		} else {
 			l.State = rapid.SampledFrom([]int{stPending, stQualified, stReadOnly, stRetired, stRejected, stUndefined}).Draw(t, "state")
 		}
+		l.Extra = genExtraStanza(t)
 		switch rapid.SampledFrom([]int{0, 0, 1, 1, 1, 2}).Draw(t, "ivkind") {
 		case 1: // an interval that contains NotAfter
 			sh := ivShapes[rapid.IntRange(0, 4).Draw(t, "ivin")]
@@ -433,7 +464,7 @@ func inInterval(l LogSpec) bool { return !l.HasIv || (l.IvStart <= 0 && 0 < l.Iv
 // eligibility of log l for a chain rooted at root, given whether its accepted roots are known.
 func eligible(l LogSpec, root int, known bool) (bool, string) {
 	switch {
-	case l.State != stUsable:
+	case effState(l) != stUsable:
 		return false, "contacted-unusable-log"
 	case !inInterval(l):
 		return false, "contacted-outside-interval"
@@ -540,6 +571,7 @@ func judge2(v harness.Verdict, c Case2, out Out2) harness.Verdict {
 	if c.NoRootCheck {
 		v.Class("root-check-disabled")
 	}
+	v.Class(stanzaClasses(c.List)...)
 	v.Class(lifetimeClass(c.Life)...)
 	anyBad, anyFiltered := false, false
 	for si, s := range c.Subs {
@@ -581,7 +613,7 @@ func judge2(v harness.Verdict, c Case2, out Out2) harness.Verdict {
 				sig = "root-filter-skipped-when-roots-incomplete"
 			}
 			v.Failf(sig, "Distributor sub %d: log %d was contacted at %v although it is not compatible (state %s, interval %v [%d,%d) s around NotAfter, roots mask %d known=%v, chain root %d; root refreshes %v, submission started %v)",
-				si, call.Log, call.Start, stateNames[l.State], l.HasIv, l.IvStart, l.IvEnd, l.Roots, possibly && rootsAnswer(l), root, out.Refreshes, o.Start)
+				si, call.Log, call.Start, stateNames[effState(l)], l.HasIv, l.IvStart, l.IvEnd, l.Roots, possibly && rootsAnswer(l), root, out.Refreshes, o.Start)
 		}
 		if nd.satisfies(c.List, eligIdx) {
 			v.Class("eligible-set-satisfiable:true")
